@@ -15,6 +15,28 @@ from . import core
 from .core import SimLock, cur
 
 _installed = False
+_LOCALS = weakref.WeakSet()
+
+
+class TrackedLocal(_thread._local):
+    """threading.local whose instances are known to the simulator: when a simulated thread ends, its thread-local contents are
+    released while it still holds the baton (CPython would release them during the OS thread's teardown, i.e. concurrently with
+    whatever runs next - e.g. a per-thread manager connection being closed by its finalizer)."""
+
+    def __new__(cls, *a, **k):
+        self = super().__new__(cls, *a, **k)
+        _LOCALS.add(self)
+        return self
+
+
+def release_thread_locals():
+    for loc in list(_LOCALS):
+        try:
+            d = object.__getattribute__(loc, '__dict__')
+            if d:
+                d.clear()
+        except Exception:
+            pass
 
 
 def sim_sleep(secs):
@@ -139,6 +161,8 @@ def install():
     _time_mod.time_ns = p_time_ns
     threading._time = p_monotonic
     queue.time = p_monotonic
+    threading.local = TrackedLocal
+    core.thread_exit_hook = release_thread_locals
     threading._allocate_lock = SimLock
     threading.Lock = SimLock
     threading._CRLock = None
